@@ -104,7 +104,7 @@ def cmd_import(src, prop, label):
         log.append("existing suite passes with the change")
         # 3. demo fails with the change
         shutil.copy(demos[0], os.path.join(SCRATCH, demo_dir, "seed_demo_test.go"))
-        race = "-race" if "race" in open(os.path.join(src, "README.md")).read().lower() and prop == "C14" else ""
+        race = "-race" if "race" in open(os.path.join(src, "README.md")).read().lower() and prop in ("C14", "C03") else ""
         rc, out = sh("go test -vet=off -count=1 %s -run 'Seed|seed|Demo' ./%s 2>&1 | tail -30" % (race, demo_dir), cwd=SCRATCH, timeout=900)
         if "FAIL" not in out and "DATA RACE" not in out and "panic" not in out:
             # some demos are flaky by nature (schedules): try a few more times
